@@ -1,3 +1,4 @@
+import MiniconfVerif.Lemmas.GenTie
 import MiniconfVerif.Lemmas.IterRoot
 import MiniconfVerif.Lemmas.IterGen
 import MiniconfVerif.Lemmas.Factor
@@ -180,5 +181,21 @@ example : (IterSt.init 2).poll ex 2 (.idx [] 1 100) 7 =
      .item (.node (.idx [2] 1 100) (.leaf 1)), .finished, .finished] := by decide +kernel
 example : exactCounts ((IterSt.init 2).poll ex 2 .unit 7) ex.meta.count =
     [some 4, some 3, some 2, some 1, some 0, some 0, some 0] := by decide +kernel
+
+
+/-! ### Tie to the translated source (`Gen/Core.lean`, regenerated from iter.rs on every run) -/
+open MiniconfVerif.Gen MiniconfVerif.Gen.Core MiniconfVerif.GenTie in
+/-- One pass through the `loop` of `NodeIter::next` **as translated from iter.rs** is the model's
+`IterSt.step` (on which `limited_exact`, `rooted_exact`, `fused`, … are proved), for every type, target,
+depth limit and state, given that the two `M::transcode` calls return what the model's transcoding returns
+(no panic: `C16.traverse_total`).  `NodeIter::default()` and the assignments of `root()` are the model's. -/
+theorem source_next_is_model (s : Schema) (D : Nat) (fresh : Target) (it : IterSt)
+    (hlen : it.state.length = D)
+    (tcN : List Nat → Except Traversal (Target × Node)) (tcU : List Nat → Except Traversal (Unit × Node))
+    (hN : ∀ st, tcToGen (s.transcode (stateKeys st) fresh) = some (tcN st))
+    (hU : ∀ st, tcUToGen (s.transcode (stateKeys st) .unit) = some (tcU st)) :
+    stepOfCtl (NodeIter.next_body D tcN tcU (itToGen it)) = (it.step s D fresh).erase ∧
+    NodeIter.default D = itToGen (IterSt.init D) :=
+  ⟨next_body_tie s D fresh it hlen tcN tcU hN hU, rfl⟩
 
 end MiniconfVerif.C11
